@@ -32,6 +32,9 @@ func NewServiceBinding(
 	}
 }
 
+// MaxPriceBitLen is the maximum bit length of a price amount
+const MaxPriceBitLen = 128
+
 // RawPricing represents the raw pricing of a service binding
 type RawPricing struct {
 	Price              string              `json:"price"`                // base price string
@@ -80,6 +83,14 @@ func ValidatePricing(pricing Pricing) error {
 	for i, p := range pricing.PromotionsByTime {
 		if !p.EndTime.After(p.StartTime) || (i > 0 && p.StartTime.Before(pricing.PromotionsByTime[i-1].EndTime)) {
 			return sdkerrors.Wrapf(ErrInvalidPricing, "invalid timing promotion %d", i)
+		}
+	}
+
+	// CONTRACT:
+	// the price leaves room for price * MinDepositMultiple and for the decimal price computation
+	for _, coin := range pricing.Price {
+		if coin.Amount.BigInt().BitLen() > MaxPriceBitLen {
+			return sdkerrors.Wrapf(ErrInvalidPricing, "price %s is too large", coin.Amount)
 		}
 	}
 
